@@ -184,8 +184,15 @@ def c05_4(ctx):
             ctx.check(seen['zone'][0].key() == want_zone.key(), 'org:zone-relative', addr.site(seen['zone'][1]),
                       'a .org with a zone name is zone.start + offset', f'value is {seen["zone"][0]}')
         else:
-            ctx.err('org:value-shape', addr.site(r), 'origin defined once per branch of `parsed zone name is None`',
-                    f'definitions found under: {sorted(seen)}')
+            conds = [describe_facts(facts_at(ctx, addr, d, res)) for d in defs]
+            if any('global_zone' in c or 'GLOBAL' in c for c in conds) and not any('_parsed_memzone_name' in c for c in conds):
+                ctx.refute('org:zone-relative', addr.site(r),
+                           'absolute vs zone-relative is decided by whether a zone name was written on the .org line',
+                           f'decided by {conds[0]}: `.org N "GLOBAL"` (a written zone name) is treated as absolute although it is '
+                           'relative to the start of a redefined GLOBAL zone')
+            else:
+                ctx.err('org:value-shape', addr.site(r), 'origin defined once per branch of `parsed zone name is None`',
+                        f'definitions found under: {conds}')
         cl = facts_at(ctx, addr, r, res)
         for key, req in (('org:>=global.start', f'{v} >= self.memzone_manager.global_zone.start'),
                          ('org:<=global.end', f'{v} <= self.memzone_manager.global_zone.end')):
@@ -348,6 +355,9 @@ MUTANTS = [
     V('c05-zone-not-restored', _AF, '                                    current_memzone = lobj.memory_zone\n', '                                    pass\n', 'C05.5'),
     V('c05-include-leaks-zone', _AF, '                            line_objects.extend(additional_line_objects)\n',
       '                            line_objects.extend(additional_line_objects)\n                            current_memzone = memzone_manager.global_zone\n', 'C05.5'),
+]
+MUTANTS += [
+    V('c05-org-by-resolved-zone', _AD, '        if self._parsed_memzone_name is None:\n', '        if self.memory_zone is self.memzone_manager.global_zone:\n', 'C05.4'),
 ]
 TWINS = [
     V('c05-t-flip-compare', _MZ, 'if value < self.start:', 'if self.start > value:'),
